@@ -15,19 +15,24 @@ LEVEL = "model_checking"
 
 OPS = "OpsAll"
 QUICK = [
-    dict(mode="ex", nmsgs=2, maxops=3, maxobjs=6, sizes="SizesSmall", shapes="ShapesSmall", complens="{2}", ops=OPS, limit=6000),
+    dict(mode="ex", nmsgs=2, maxops=3, maxobjs=6, sizes="SizesTiny", shapes="ShapesTiny", complens="{1}", ops=OPS, limit=4000),
     dict(mode="sim", nmsgs=2, maxops=9, maxobjs=12, sizes="SizesAll", shapes="ShapesAll", complens="{1, 2}", ops=OPS, num=120, per_prefix=2, limit=1200),
+    # same-message copies followed by mutations of either side: small alphabets so that handles get reused
+    dict(mode="sim", nmsgs=1, maxops=6, maxobjs=8, sizes="SizesTiny", shapes="ShapesTiny", complens="{1}", ops=OPS, plan="PlanCopy", num=150, per_prefix=3, limit=3000),
+    dict(mode="sim", nmsgs=2, maxops=7, maxobjs=9, sizes="SizesTiny", shapes="ShapesTiny", complens="{1}", ops=OPS, plan="PlanCopy2", num=150, per_prefix=3, limit=3000),
 ]
 THOROUGH = [
     dict(mode="ex", nmsgs=2, maxops=3, maxobjs=6, sizes="SizesSmall", shapes="ShapesSmall", complens="{2}", ops=OPS, limit=40000),
     dict(mode="sim", nmsgs=2, maxops=12, maxobjs=16, sizes="SizesAll", shapes="ShapesAll", complens="{0, 1, 2, 3}", ops=OPS, num=1500, per_prefix=2, limit=12000),
     dict(mode="sim", nmsgs=3, maxops=10, maxobjs=14, sizes="SizesAll", shapes="ShapesAll", complens="{1, 2}", ops=OPS, num=400, per_prefix=2, limit=3000),
+    dict(mode="ex", nmsgs=1, maxops=6, maxobjs=8, sizes="SizesTiny", shapes="ShapesTiny", complens="{1}", ops=OPS, plan="PlanCopy", limit=60000),
+    dict(mode="sim", nmsgs=2, maxops=7, maxobjs=9, sizes="SizesTiny", shapes="ShapesTiny", complens="{1}", ops=OPS, plan="PlanCopy2", num=4000, per_prefix=3, limit=30000),
 ]
 ARENAS = [a for a in encpipe.ARENAS if a["name"] in ("std-single", "std-multi", "single-tight", "multi-1", "multi-2-3-reuse", "multi-3-1-2")]
 
 
 def run(ctx):
-    res = encpipe.run(ctx, QUICK if ctx.quick else THOROUGH, arenas=ARENAS)
+    res = encpipe.run(ctx, QUICK if ctx.quick else THOROUGH, arenas=ARENAS, dump_every=3)
     c04.report(ctx, res, want_go=True, want_tlc=True)
     ncopy = sum(1 for m in [res["sample"]] for o in m["ops"] if o["op"] in ("setstruct", "copyfrom", "setroot"))
     c04.cover(ctx, res, "behaviours over 2-3 messages with copying operations (cross-message SetPtr/SetRoot/PointerList.Set, List.SetStruct, "
